@@ -89,6 +89,11 @@ def gen_module_source(rng, dotted, ver, imports=(), sentinel_id=None, shape=None
         L.append('    return q')
         L.append('')
         L.append('')
+    if shape.get('tie'):
+        # names that differ only in case from VALUE / NUM (they tie on the completion sort key) and are
+        # defined BEFORE them: a query that looks VALUE up first must not change the order of `mod.`
+        L.append('value = "v"')
+        L.append('num = 2.5')
     L.append('VALUE = func(1)')
     L.append('NAME_%s = "text"' % t)
     L.append('NUM = 7')
@@ -113,6 +118,7 @@ def gen_shape(rng):
         'func_ret': rng.choice(['"s"', '1', 'Klass()', '1.5']),
         'extra_fn': rng.random() < 0.5,
         'multi': rng.random() < 0.3,
+        'tie': rng.random() < 0.5,
     }
 
 
